@@ -5,8 +5,9 @@
    Streams are modelled by what the copiers can observe: side s offers the bytes its application wrote (inq),
    then blocks, or reports end of stream / an error once the application finished; Close makes every later (and
    every blocked) Read or Write on that stream fail; a broken stream fails its Writes.
-   CloseBreaksWrite = TRUE models full-close streams (bufconn, a TCP peer that called close()): once the
-   application behind stream s has closed, Writes to s fail.  FALSE = the peer only finished its sending half.
+   cbw = TRUE models full-close streams (bufconn, a TCP peer that called close()): once the application behind
+   stream s has closed, Writes to s fail.  cbw = FALSE: the peer only finished its sending half, Writes to it keep
+   working.  Both kinds are explored (CloseModes).
    Every step feeds its events to the monitor of BiPipeRules (variable sm); TLC checks the clauses of the property
    on every terminated behaviour (InOrder on every state), and that a run in which a side ended does terminate.
    Variant: "code" as written; broken twins: "oneclose" (the stream that was written to is not closed),
@@ -15,7 +16,7 @@ EXTENDS Integers, Sequences, FiniteSets, TLC, BiPipeRules
 
 CONSTANTS Pay,               \* <<bytes application 1 writes, bytes application 2 writes>>
           Errors,            \* BOOLEAN: streams may end with an error / have failing Writes
-          CloseBreaksWrite,  \* BOOLEAN, see above
+          CloseModes,        \* subset of BOOLEAN: the values of cbw explored, see above
           Variant
 
 Pay21 == << <<1, 2>>, <<11>> >>          \* values for Pay (tuples cannot be written in a .cfg)
@@ -30,8 +31,9 @@ VARIABLES pend,    \* [side -> bytes its application has still to write]
           cp,      \* [copier -> [pc, chunk, err]]      copier c reads side c and writes side 3-c
           chClosed,\* the channel returned by Pipe is closed
           nerr,    \* errors sent to the channel
+          cbw,     \* this run's kind of streams
           sm       \* the monitor of BiPipeRules, updated with every event
-vars == <<pend, inq, ended, wbroken, closed, cp, chClosed, nerr, sm>>
+vars == <<pend, inq, ended, wbroken, closed, cp, chClosed, nerr, cbw, sm>>
 
 Ev(k, s, d, e) == [k |-> k, s |-> s, d |-> d, e |-> e]
 Log(es) == sm' = FoldFrom(sm, es)          \* the step produces the events es
@@ -43,7 +45,7 @@ Init ==
   /\ wbroken = [s \in {1, 2} |-> FALSE]
   /\ closed = [s \in {1, 2} |-> FALSE]
   /\ cp = [c \in {1, 2} |-> [pc |-> "read", chunk |-> <<>>, err |-> FALSE]]
-  /\ chClosed = FALSE /\ nerr = 0 /\ sm = S0
+  /\ chClosed = FALSE /\ nerr = 0 /\ sm = S0 /\ cbw \in CloseModes
 
 (* the applications *)
 AWrite(s) ==
@@ -52,18 +54,18 @@ AWrite(s) ==
        /\ inq' = [inq EXCEPT ![s] = @ \o SubSeq(pend[s], 1, k)]
        /\ pend' = [pend EXCEPT ![s] = SubSeq(@, k + 1, Len(@))]
        /\ Log(<<Ev("awrite", s, SubSeq(pend[s], 1, k), "ok")>>)
-  /\ UNCHANGED <<ended, wbroken, closed, cp, chClosed, nerr>>
+  /\ UNCHANGED <<ended, wbroken, closed, cp, chClosed, nerr, cbw>>
 AEnd(s) ==
   /\ ended[s] = "no"
   /\ \E e \in (IF Errors THEN {"eof", "err"} ELSE {"eof"}) :
        /\ ended' = [ended EXCEPT ![s] = e]
        /\ Log(<<Ev("aclose", s, <<>>, e)>>)
-  /\ UNCHANGED <<pend, inq, wbroken, closed, cp, chClosed, nerr>>
+  /\ UNCHANGED <<pend, inq, wbroken, closed, cp, chClosed, nerr, cbw>>
 ABreak(s) ==
   /\ Errors /\ ~wbroken[s]
   /\ wbroken' = [wbroken EXCEPT ![s] = TRUE]
   /\ Log(<<Ev("abreak", s, <<>>, "err")>>)
-  /\ UNCHANGED <<pend, inq, ended, closed, cp, chClosed, nerr>>
+  /\ UNCHANGED <<pend, inq, ended, closed, cp, chClosed, nerr, cbw>>
 
 (* copier c: io.CopyBuffer(dst, src) *)
 Src(c) == c
@@ -83,17 +85,17 @@ Read(c) ==
      ELSE /\ ended[s] # "no"
           /\ Log(<<Ev("read", s, <<>>, ended[s])>>)
           /\ Goto(c, "closeT", <<>>, ended[s] = "err") /\ inq' = inq
-  /\ UNCHANGED <<pend, ended, wbroken, closed, chClosed, nerr>>
+  /\ UNCHANGED <<pend, ended, wbroken, closed, chClosed, nerr, cbw>>
 
 Write(c) ==
   LET t == Dst(c)
-      fails == closed[t] \/ wbroken[t] \/ (CloseBreaksWrite /\ ended[t] # "no") IN
+      fails == closed[t] \/ wbroken[t] \/ (cbw /\ ended[t] # "no") IN
   /\ cp[c].pc = "write"
   /\ IF fails
        THEN /\ Log(<<Ev("write", t, <<>>, "err")>>) /\ Goto(c, "closeT", <<>>, TRUE)
        ELSE /\ Log(<<Ev("write", t, cp[c].chunk, "ok"), Ev("aread", t, cp[c].chunk, "ok")>>)
             /\ Goto(c, "read", <<>>, FALSE)
-  /\ UNCHANGED <<pend, inq, ended, wbroken, closed, chClosed, nerr>>
+  /\ UNCHANGED <<pend, inq, ended, wbroken, closed, chClosed, nerr, cbw>>
 
 (* src.Close() in pipe(): the stream that was written to; dst.Close(): the stream that was read from.
    The application behind a stream that gets closed sees the end of its input. *)
@@ -105,18 +107,18 @@ DoClose(c, t, nextpc, skip) ==
 CloseT(c) ==
   /\ cp[c].pc = "closeT"
   /\ DoClose(c, Dst(c), "closeS", Variant = "oneclose" \/ (Variant = "noclose_on_err" /\ cp[c].err))
-  /\ UNCHANGED <<pend, inq, ended, wbroken, chClosed, nerr>>
+  /\ UNCHANGED <<pend, inq, ended, wbroken, chClosed, nerr, cbw>>
 CloseS(c) ==
   /\ cp[c].pc = "closeS"
   /\ DoClose(c, Src(c), "done", Variant = "noclose_on_err" /\ cp[c].err)
   /\ nerr' = nerr + (IF cp[c].err THEN 1 ELSE 0)
-  /\ UNCHANGED <<pend, inq, ended, wbroken, chClosed>>
+  /\ UNCHANGED <<pend, inq, ended, wbroken, chClosed, cbw>>
 
 Complete ==
   /\ cp[1].pc = "done" /\ cp[2].pc = "done" /\ ~chClosed /\ Variant # "nocompletion"
   /\ chClosed' = TRUE
   /\ Log(<<Ev("done", 0, <<>>, "ok")>>)
-  /\ UNCHANGED <<pend, inq, ended, wbroken, closed, cp, nerr>>
+  /\ UNCHANGED <<pend, inq, ended, wbroken, closed, cp, nerr, cbw>>
 
 Copier(c) == Read(c) \/ Write(c) \/ CloseT(c) \/ CloseS(c)
 Next == (\E s \in {1, 2} : AWrite(s) \/ AEnd(s) \/ ABreak(s)) \/ (\E c \in {1, 2} : Copier(c)) \/ Complete
@@ -131,7 +133,8 @@ InvInOrder == InOrder(sm)
 InvDelivered == Terminated => Delivered(sm)
 InvBothClosed == Terminated => BothClosed(sm)
 InvCompleted == Terminated => Completed(sm)
-InvEndToEnd == Terminated => EndToEnd(sm)
+InvEndToEnd == (Terminated /\ ~cbw) => EndToEnd(sm)       \* half-close peers: the end-to-end clause holds
+InvEndToEndAll == Terminated => EndToEnd(sm)               \* ... for full-close streams it does not (lead, see cfg)
 (* once a side has ended the pipe terminates: both copiers finish and completion is reported *)
 Terminates == SideEnded ~> chClosed
 (* nothing is left half-done in a state where no copier can move *)
